@@ -505,6 +505,12 @@ impl<'a, SE: extensions::ShellExtensions> SimpleCommand<'a, SE> {
         self,
         func_registration: functions::Registration,
     ) -> Result<ExecutionSpawnResult, error::Error> {
+        // A function that runs in its own shell (e.g., as a pipeline stage) must run
+        // concurrently with its neighbors, or the pipe it writes to is never drained.
+        if matches!(self.shell, ShellForCommand::OwnedShell { .. }) {
+            return Ok(self.execute_via_function_in_owned_shell(func_registration));
+        }
+
         let mut shell = self.shell;
         let last_arg = Self::take_last_arg(&self.args);
 
@@ -528,6 +534,55 @@ impl<'a, SE: extensions::ShellExtensions> SimpleCommand<'a, SE> {
         }
 
         result
+    }
+
+    fn execute_via_function_in_owned_shell(
+        self,
+        func_registration: functions::Registration,
+    ) -> ExecutionSpawnResult {
+        let ShellForCommand::OwnedShell { target, .. } = self.shell else {
+            unreachable!("only called for commands that own their shell");
+        };
+
+        let mut shell = *target;
+        let last_arg = Self::take_last_arg(&self.args);
+        let command_name = self.command_name;
+        let params = self.params;
+        let args = self.args;
+        let post_execute = self.post_execute;
+
+        let join_handle = tokio::task::spawn_blocking(move || {
+            let rt = tokio::runtime::Handle::current();
+
+            let cmd_context = ExecutionContext {
+                shell: &mut shell,
+                command_name,
+                params,
+            };
+
+            // Strip the function name off args.
+            let result = rt.block_on(async {
+                match invoke_shell_function(func_registration, cmd_context, &args[1..]).await? {
+                    ExecutionSpawnResult::Completed(result) => Ok(result),
+                    other => match other.wait().await? {
+                        crate::results::ExecutionWaitResult::Completed(result) => Ok(result),
+                        crate::results::ExecutionWaitResult::Stopped(_) => {
+                            Ok(ExecutionResult::stopped())
+                        }
+                    },
+                }
+            });
+
+            shell.update_last_arg_variable(last_arg);
+
+            if let Some(post_execute) = post_execute {
+                let _ = post_execute(&mut shell);
+            }
+
+            result
+        });
+
+        ExecutionSpawnResult::StartedTask(join_handle)
     }
 
     fn execute_via_external(self, path: &Path) -> Result<ExecutionSpawnResult, error::Error> {
